@@ -2065,6 +2065,40 @@ pub fn generate(tier: &str, rng: &mut Rng) -> Vec<String> {
         }
     }
 
+    // ---- small-scope exhaustive: every ordered pair of operations over a small alphabet, on a
+    // request that has / has not the names (insert-after-append, remove-after-insert, clear-then-…)
+    {
+        let mut alphabet: Vec<Op> = Vec::new();
+        for n in ["te", "x-a"] {
+            let nb = n.as_bytes().to_vec();
+            alphabet.extend([
+                Op::HIns(nb.clone(), b"hi".to_vec(), false),
+                Op::HApp(nb.clone(), b"ha".to_vec(), true),
+                Op::HRem(nb.clone()),
+                Op::MIns(nb.clone(), b"mi".to_vec()),
+                Op::MApp(nb.clone(), b"ma".to_vec()),
+                Op::MRem(nb.clone()),
+                Op::Cnt(nb.clone()),
+            ]);
+        }
+        alphabet.push(Op::Clear);
+        alphabet.extend([Op::BIns(b"x-bin".to_vec(), vec![1]), Op::BApp(b"x-bin".to_vec(), vec![2, 3]), Op::BRem(b"x-bin".to_vec())]);
+        let full = H(vec![hb("te", "trailers"), hb("x-a", "1"), hb("x-bin", "AA"), hb("x-a", "2"), hb("grpc-status", "7"), hb("te", "t2")]);
+        let sparse = H(vec![hb("grpc-status", "7")]);
+        for a in &alphabet {
+            for b in &alphabet {
+                for h in [&full, &sparse] {
+                    push(Case {
+                        kind: "pairs".into(),
+                        via: "new".into(),
+                        scripts: vec![Script { ops: vec![a.clone(), b.clone()], rej: None }],
+                        calls: vec![simple_call(h.clone())],
+                    });
+                }
+            }
+        }
+    }
+
     // ---- structured, random: single calls
     let n_single = if thorough { 60_000 } else { 3_000 };
     for _ in 0..n_single {
